@@ -286,6 +286,71 @@ def validate_chunks(ctx, module, cfg, trace_path, consts, chunk_lines=40000, nam
     return len(seqs) - len(failures), failures
 
 
+def validate_search(ctx, module, cfg, trace_path, consts=None, timeout=900, name=None):
+    """Validates concurrent histories (sequences separated by `reset`) with a trace spec that
+    searches for an explanation (internal linearization steps).  Acceptance = the position passes
+    the end of the file (inverted invariant NotDone); the spec reports the highest line reached
+    ("MAXI|n").  Returns the 1-based index of the line that could not be consumed, or None."""
+    nlines = sum(1 for _ in open(trace_path))
+    c = dict(consts or {})
+    c["TraceFile"] = '"%s"' % os.path.basename(trace_path)
+    r = tlc(ctx, module, cfg, files=[trace_path], workers=1, timeout=timeout, consts=c, name=name, dfs=True,
+            extra=["-noGenerateSpecTE"])
+    mx = [int(x) for x in printed(r["out"], "MAXI|")]
+    if r["violated"] == "NotDone":
+        return None
+    if r["ok"] and mx:
+        if mx[-1] > nlines:
+            return None
+        return mx[-1]
+    raise Inconclusive("trace validation failed to run:\n" + "\n".join(r["out"].splitlines()[-40:]))
+
+
+def validate_histories(ctx, module, cfg, trace_path, consts=None, timeout=900, name="hist", max_failures=20,
+                       chunk_lines=30000):
+    """Validates every history of a trace; a rejected history is recorded and validation resumes
+    with the history after it.  Returns (accepted, failures[(seq_lines, line_in_seq, msg)])."""
+    import concurrent.futures as cf
+    seqs = split_sequences(trace_path)
+    chunks, cur, n = [], [], 0
+    for s in seqs:
+        cur.append(s)
+        n += len(s[1])
+        if n >= chunk_lines:
+            chunks.append(cur)
+            cur, n = [], 0
+    if cur:
+        chunks.append(cur)
+
+    def one(ci):
+        remaining = list(chunks[ci])
+        fails, rnd = [], 0
+        while remaining and len(fails) < max_failures:
+            rnd += 1
+            p = os.path.join(ctx.dir("chunks-" + name), "%s-c%d-r%d.ndjson" % (name, ci, rnd))
+            with open(p, "w") as f:
+                for _, ls in remaining:
+                    f.writelines(ls)
+            bad = validate_search(ctx, module, cfg, p, consts=consts, timeout=timeout, name="%s-c%d-r%d" % (name, ci, rnd))
+            if bad is None:
+                break
+            acc = 0
+            for idx, (_, ls) in enumerate(remaining):
+                if acc + len(ls) >= bad:
+                    fails.append((ls, bad - acc, "no linearization explains the reply at this line"))
+                    remaining = remaining[idx + 1:]
+                    break
+                acc += len(ls)
+            else:
+                raise Inconclusive("rejected line %d is outside of the batch" % bad)
+        return fails
+    failures = []
+    with cf.ThreadPoolExecutor(max_workers=max(1, NCPU // 2)) as ex:
+        for fails in ex.map(one, range(len(chunks))):
+            failures += fails
+    return len(seqs) - len(failures), failures
+
+
 # ---------------------------------------------------------------- findings, verdict, evidence
 def load_known():
     p = os.path.join(VERIF, "known_findings.json")
